@@ -172,6 +172,14 @@ READER_APIS = ["read_csv:path", "read_csv:file", "read_csv:stringio",
                "read_excel:path", "read_excel:file", "read_excel:bytesio", "load_files"]
 INJECTS = ["none", "cell", "tracker_raise", "tracker_collect", "filter_raise", "filter_drop"]
 TERMINALS = ["exhaust", "close", "drop", "throw"]
+# sheet_name_pattern of read_excel / load_files against sheets named keep<i> / skip<i>
+PAT_MODES = {"nopattern": None, "all": "keep|skip", "some": "keep", "none": "zzz"}
+PAT_ORDER = ["some", "nopattern", "all", "none"]
+
+
+def _sheet_is_read(pattern, f, title):
+    """does read_excel hand this sheet to the block parser?  (`sheet_name_pattern.match`; CSV files have no sheets)"""
+    return f["kind"] != "xlsx" or not pattern or re.compile(pattern).match(title) is not None
 
 
 def _gen_blocks(rng, names, allow_include=None):
@@ -193,7 +201,7 @@ def _gen_blocks(rng, names, allow_include=None):
     return blocks
 
 
-def gen_scenario(rng, api, inject):
+def gen_scenario(rng, api, inject, pat_mode=None):
     names = ["t%d" % i for i in range(40)]
     files = []
     kind = "csv" if api.startswith("read_csv") else "xlsx" if api.startswith("read_excel") else None
@@ -209,8 +217,8 @@ def gen_scenario(rng, api, inject):
                 if rng.random() < 0.12:
                     blocks = []                       # empty sheet
                 sheets.append({"name": ("keep%d" if rng.random() < 0.75 else "skip%d") % i, "blocks": blocks})
-            if all(s["name"].startswith("skip") for s in sheets):
-                sheets[0]["name"] = "keep0"
+            if all(s["name"].startswith("skip") for s in sheets) and (api != "load_files" or rng.random() < 0.5):
+                sheets[0]["name"] = "keep0"           # (load_files: a workbook none of whose sheets match may stay)
         return {"id": len(files), "name": name, "kind": k, "sheets": sheets}
 
     roots = []
@@ -228,15 +236,19 @@ def gen_scenario(rng, api, inject):
                 files.append(mkfile(inc.rsplit(".", 1)[1], inc))
     else:
         files.append(mkfile(kind, "f0." + kind))
-    # pattern: only for read_excel directly (load_files reads every sheet)
-    pattern = "keep" if api.startswith("read_excel") else None
+    # sheet-name pattern matching none / some / all sheets, or no pattern (read_excel and load_files)
+    if api.startswith("read_csv"):
+        pat_mode = "nopattern"
+    elif pat_mode is None:
+        pat_mode = rng.choice(PAT_ORDER)
+    pattern = PAT_MODES[pat_mode]
     # the target table of the injection: one that is actually read
     target = None
     if inject != "none":
         cands = []
         for f in files:
             for sh in f["sheets"]:
-                if pattern and not sh["name"].startswith(pattern):
+                if not _sheet_is_read(pattern, f, sh["name"]):
                     continue
                 cands += [b["t"] for b in sh["blocks"] if "t" in b]
         if cands:
@@ -252,6 +264,7 @@ def gen_scenario(rng, api, inject):
     has_include = any(b.get("d") == "include" for f in files for sh in f["sheets"] for b in sh["blocks"])
     folder = api == "load_files" and not has_include and rng.random() < 0.5
     return {"api": api, "inject": inject, "target": target, "files": files, "roots": roots, "pattern": pattern,
+            "pat_mode": pat_mode,
             "str_path": rng.random() < 0.5, "folder": folder}
 
 
@@ -269,6 +282,8 @@ def _read_order(sc, scratch=None):
         f = stack.pop()
         order.append(f)
         for sh in f["sheets"]:
+            if not _sheet_is_read(sc.get("pattern"), f, sh["name"]):
+                continue                               # an include directive in a sheet that is not read is not seen
             for b in sh["blocks"]:
                 if b.get("d") == "include":
                     for ln in b["lines"]:
@@ -287,7 +302,7 @@ def build_model_prog(sc, refs, scratch=None):
         """per sheet: list of (kept, after_exhaustion) for the blocks that are produced"""
         sheets = []
         for (title, seq) in refs[f["id"]]:
-            read = not (pattern and not re.compile(pattern).match(title))
+            read = _sheet_is_read(pattern, f, title)
             pts = []
             if read:
                 for (bt, name, post) in seq:
@@ -450,6 +465,8 @@ def make_reader(sc, paths, obs):
         kw["filter"] = lambda bt, name: name != target
     stream = None
     if api == "load_files":
+        if sc["pattern"]:
+            kw["sheet_name_pattern"] = re.compile(sc["pattern"])
         if sc.get("folder"):
             return load_files([obs.scratch], **kw), None
         return load_files([paths[i] for i in sc["roots"]], **kw), None
@@ -686,7 +703,7 @@ def _compare(states, model, out, what, case):
 
 def _scenario_case(sc, k, term, history):
     return {"kind": "reader", "api": sc["api"], "inject": sc["inject"], "target": sc["target"],
-            "pattern": sc["pattern"], "roots": sc["roots"], "files": sc["files"], "str_path": sc.get("str_path", True),
+            "pattern": sc["pattern"], "pat_mode": sc.get("pat_mode"), "roots": sc["roots"], "files": sc["files"], "str_path": sc.get("str_path", True),
             "folder": sc.get("folder", False),
             "prefix": k, "end": term,
             "history": history}
@@ -705,11 +722,13 @@ def run_scenario(sc, rng, full, out, ops, pend, model_ok):
         for f in sc["files"]:
             for title, seq in refs[f["id"]]:
                 if f["kind"] == "xlsx":
-                    out.count("xlsx_sheet:" + ("skipped" if sc["pattern"] and not title.startswith(sc["pattern"])
+                    out.count("xlsx_sheet:" + ("skipped" if not _sheet_is_read(sc["pattern"], f, title)
                                                else "empty" if not seq else "last_block_after_rows_exhausted"
                                                if seq[-1][2] else "all_blocks_before_rows_exhausted"))
         out.count("api:" + sc["api"])
         out.count("inject:" + sc["inject"])
+        if not sc["api"].startswith("read_csv"):
+            out.count("sheet_pattern:%s:%s" % (sc["api"].split(":")[0], sc.get("pat_mode")))
         out.count("blocks:%d" % min(total, 9))
         for k, term, history in gen_histories(total, fail_at, rng, full):
             case = _scenario_case(sc, k, term, history)
@@ -765,7 +784,7 @@ def run_writers(rng, full, out, ops, pend, model_ok):
 def run(tier, seed, model_ok, translator, search=False):
     out = Outcome()
     out.rule = ("scenario = reader API x source kind (path / open file / in-memory stream) x generated files (1-4 tables "
-                "per sheet, metadata / directive / template / note blocks, 1-3 sheets, sheet-name filter, 1-3 root files "
+                "per sheet, metadata / directive / template / note blocks, 1-3 sheets, sheet-name pattern matching none / some / all sheets or absent (read_excel, load_files), 1-3 root files "
                 "with include directives for load_files) x error injection (illegal cell + default / raising / collecting "
                 "tracker, raising / dropping filter); for each scenario EVERY prefix length 0..n+1 x {exhaust, close, drop, "
                 "throw} (+ release of the caught exception, + actions on the finished iterator); writers: {csv, excel} x "
@@ -790,7 +809,11 @@ def run(tier, seed, model_ok, translator, search=False):
                 inject = INJECTS[(j + READER_APIS.index(api)) % len(INJECTS)] if j < len(INJECTS) else rng.choice(INJECTS)
                 if api == "load_files" and inject.startswith("filter"):
                     inject = "cell"            # load_files takes no filter
-                sc = gen_scenario(rng, api, inject)
+                # ... and (Excel readers, load_files) through sheet-name patterns matching some / no pattern / all / none
+                pat_mode = PAT_ORDER[j % len(PAT_ORDER)] if j < 2 * len(PAT_ORDER) else None
+                if pat_mode == "none":
+                    inject = "none"            # nothing is read: there is no block to fail in
+                sc = gen_scenario(rng, api, inject, pat_mode)
                 run_scenario(sc, rng, full, out, ops, pend, model_ok)
                 if len(out.failures) >= 20:
                     break
